@@ -215,6 +215,8 @@ func checkC14(c *Ctx, r *Report) {
 
 	// ---- C14.d dropped errors
 	r.count("dropped_error_sites", ruleErrDrops(c, r, "C14.d"))
+	// a failed command ends with a non-zero status
+	checkCommandExitStatus(c, r, "C14.d")
 	// the error chain from the visitors to cmd
 	ruleMustCallOK(c, r, "C14.d", "(*core/pipeline.GleecePipeline).Run", "(*core/pipeline.GleecePipeline).GenerateGraph", -1, "Run fails when graph generation recorded a visitor error")
 	if fi := need(c, r, "C14.d", "(*core/pipeline.GleecePipeline).GenerateGraph"); fi != nil {
